@@ -161,6 +161,17 @@ type LockInv struct {
 	Props  []string
 }
 
+// GuardedDecl: "guarded (*T).f by mu [@Cnn]": every read of field f happens with
+// mu held (read- or write-locked), every write with mu write-locked, unless the
+// object was created by the accessing function itself (not yet shared).
+type GuardedDecl struct {
+	Recv  string // "socket.socket"
+	Field string
+	Mutex string
+	Props []string
+	Line  int
+}
+
 // FrameSet: a named, parameterised modifies set ("frameset name(p T, ...) = items").
 type FrameSet struct {
 	Name   string
@@ -189,6 +200,7 @@ type ContractDB struct {
 	FrameSets map[string]*FrameSet
 	SharedInv      map[string]*SharedInv
 	LockInvs       map[string]*LockInv // "erpc.callCmd.mu"
+	Guarded        map[string]*GuardedDecl // "socket.socket.id"
 	Enums          []*EnumDecl
 	CallSites      []*CallSitesDecl
 	FuncAlias      map[string]string // "pkg.Var" -> full name of the function the variable is initialised with
@@ -214,7 +226,7 @@ type ContractDB struct {
 
 var clauseRe = regexp.MustCompile(`^(requires|ensures|invariant|assert)(\?)?(\[[^\]]*\])?(!!|!)?\s*(.*)$`)
 
-var topKeywords = map[string]bool{"lockinv": true, "libkeeps": true, "frameset": true, "shared": true, "funcalias": true, "libframe": true, "enumerates": true, "callsites": true, "zeroglobal": true, "constglobal": true, "writes": true, "covers": true, "func": true, "ext": true, "iface": true, "spec": true, "ghost": true, "axiom": true, "sealed": true, "lemma": true, "pure": true, "class": true, "trusted": true}
+var topKeywords = map[string]bool{"guarded": true, "lockinv": true, "libkeeps": true, "frameset": true, "shared": true, "funcalias": true, "libframe": true, "enumerates": true, "callsites": true, "zeroglobal": true, "constglobal": true, "writes": true, "covers": true, "func": true, "ext": true, "iface": true, "spec": true, "ghost": true, "axiom": true, "sealed": true, "lemma": true, "pure": true, "class": true, "trusted": true}
 var subKeywords = map[string]bool{"spawnset": true, "ghostset": true, "property": true, "flags": true, "requires": true, "ensures": true, "modifies": true, "loop": true, "let": true, "params": true}
 
 func firstWord(s string) string {
@@ -521,6 +533,27 @@ func (db *ContractDB) parseFile(path, pkg string) error {
 				db.FrameSets = map[string]*FrameSet{}
 			}
 			db.FrameSets[fsd.Name] = fsd
+		case "guarded":
+			cur = nil
+			f := strings.Fields(rest)
+			if len(f) < 3 || f[1] != "by" {
+				return fail(l, "guarded (*T).f by mu [@Cnn]")
+			}
+			i := strings.LastIndex(f[0], ".")
+			recv := strings.Trim(f[0][:i], "(*)")
+			if !strings.Contains(recv, ".") {
+				recv = pkg + "." + recv
+			}
+			gd := &GuardedDecl{Recv: recv, Field: f[0][i+1:], Mutex: f[2], Line: l.line}
+			for _, w := range f[3:] {
+				if strings.HasPrefix(w, "@") {
+					gd.Props = append(gd.Props, w[1:])
+				}
+			}
+			if db.Guarded == nil {
+				db.Guarded = map[string]*GuardedDecl{}
+			}
+			db.Guarded[recv+"."+gd.Field] = gd
 		case "lockinv":
 			cur = nil
 			k := strings.Index(rest, "::")
